@@ -256,6 +256,7 @@ def do_replay(pid, path):
     for v in res.get("violations") or []:
         sys.stdout.write("  %s %s %s\n" % (v["rule"], v["classifier"], json.dumps(v.get("detail"), default=str)[:600]))
     if classes and (not want or want in classes):
+        sys.stdout.write("CLASS-REPRODUCED %s\n" % json.dumps(list(want)))
         sys.stdout.write("VIOLATION property=%s replay=%s\n" % (pid, path))
         return 1
     if classes:
@@ -364,7 +365,23 @@ def main_check(pid, tier):
                 )
             code, out = fresh_replay(pid, path)
             last = (code, out)
-            if code == 1 and ("digest=%s " % res.get("digest")) in out:
+            ok_fresh = code == 1 and ("CLASS-REPRODUCED" in out)
+            if ok_fresh and ("digest=%s " % res.get("digest")) not in out:
+                # The fresh interpreter shows the same violation class with another event log than this (long-lived, possibly
+                # polluted by earlier scenarios) driver process: the fresh run is the reference. It must itself be repeatable.
+                import re as _re
+
+                m1 = _re.search(r"digest=(\S+) ", out)
+                with open(path) as f:
+                    rep = json.load(f)
+                rep["digest"] = m1.group(1) if m1 else None
+                rep["note"] = "digest taken from the fresh-interpreter replay; the batch process gave %s" % res.get("digest")
+                with open(path, "w") as f:
+                    json.dump(rep, f, indent=1, sort_keys=True, default=str)
+                code2, out2 = fresh_replay(pid, path)
+                ok_fresh = code2 == 1 and "CLASS-REPRODUCED" in out2 and m1 is not None and ("digest=%s " % m1.group(1)) in out2
+                last = (code2, out2)
+            if ok_fresh:
                 sys.stdout.write("violation %s %s: %s\n" % (cls[0], cls[1], json.dumps((vv[0] if vv else v).get("detail"), default=str)[:800]))
                 sys.stdout.write("VIOLATION property=%s replay=%s\n" % (pid, path))
                 status = 1
